@@ -26,11 +26,15 @@ def assist(project, source, position, filename=None, debug=False):
     # what the editor replaces: the identifier characters left of the cursor
     prefix = re.search(r'\w*$', line).group()
     if line.lstrip().startswith('from ') and ' import ' not in line:
-        iname = line.rpartition(' ')[2]
-        package, sep, _ = iname.rpartition('.')
-        if (not package or package.startswith('.')) and sep:
-            package += '.'
-        return prefix, list_packages(project, package, filename)
+        try:
+            # 'raise X \\<newline> from exc|' is a complete statement
+            source.tree
+        except SyntaxError:
+            iname = line.rpartition(' ')[2]
+            package, sep, _ = iname.rpartition('.')
+            if (not package or package.startswith('.')) and sep:
+                package += '.'
+            return prefix, list_packages(project, package, filename)
 
     debug and print_dump(source.tree)
 
